@@ -106,10 +106,14 @@ class World:
             self.models.set("missing")
             self.metadata.set("missing")
             self.integrity.set("ok")
-        if s == "PRAGMA integrity_check":
-            cur.result = [("ok",)] if self.integrity.get() == "ok" else [("*** in database main ***\nPage 3: btreeInitPage() returns error code 11",)]
+        if s in ("PRAGMA integrity_check", "PRAGMA quick_check"):
+            # SQLite: quick_check does what integrity_check does EXCEPT verifying that index content matches table content
+            seen = self.integrity.get() != "ok" if s.endswith("integrity_check") else self.integrity.get() == "reports-damage"
+            cur.result = [("*** in database main ***\nPage 3: btreeInitPage() returns error code 11",)] if seen else [("ok",)]
             return
         m = re.fullmatch(r"SELECT name FROM sqlite_master WHERE type='table' AND name='(models|metadata)'", s)
+        if m is None and s == "SELECT name FROM sqlite_master WHERE type='table' AND name=?" and len(params) == 1 and params[0] in ("models", "metadata"):
+            m = re.fullmatch(r"(models|metadata)", params[0])       # the same question with the table name bound as a parameter
         if m:
             cur.result = [] if self.table(m.group(1)).get() == "missing" else [(m.group(1),)]
             return
@@ -131,6 +135,8 @@ class World:
             self.table(m.group(1)).set("missing")
             if m.group(1) == "models":
                 self.row.set("none")
+                if self.integrity.get() == "index-damage":
+                    self.integrity.set("ok")      # the damaged index goes with its table
             return
         m = re.fullmatch(r"CREATE TABLE (models|metadata) \((.*)\)", s)
         if m:
@@ -142,6 +148,8 @@ class World:
             self.table(m.group(1)).set("ok" if cols == want else "wrong-layout-compatible")
             if m.group(1) == "models":
                 self.row.set("none")
+                if self.integrity.get() == "index-damage":
+                    self.integrity.set("ok")
             return
         if s == "INSERT OR IGNORE INTO metadata (key, value) VALUES (?, ?)":
             if not self.usable("metadata"):
@@ -172,6 +180,11 @@ class World:
             if not key_ok:
                 # a lookup under another key: J says nothing useful about what it finds -- any row, even a valid tree of
                 # ANOTHER text / version
+                cur.result = [(self.row_last_hit, Blob("valid-for-another-key"))]
+                return
+            if self.integrity.get() == "index-damage":
+                # a primary-key lookup goes through the index: with an index that does not match the table it may land on the row of
+                # another key (or on none)
                 cur.result = [(self.row_last_hit, Blob("valid-for-another-key"))]
                 return
             cur.result = [] if self.row.get() == "none" else [(self.row_last_hit, Blob(self.row.get()))]
@@ -363,6 +376,10 @@ def h_parse(eng):
     if init != "attribute absent (module just loaded)":
         s = VSet([DbPath("<folder>/other.db")] + ([DbPath("<folder>/cache.db")] if init.endswith("with this database") else []))
         eng.setattr(f, "initialized_dbs", s)
+    if not init.endswith("with this database"):
+        # damage that only a full integrity check finds (index content not matching the table).  Fault model: the file is as it was
+        # when this process first met it; damage arriving AFTER that first check is not modelled for this kind
+        w.integrity = Lazy(eng, "integrity_check", ["ok", "reports-damage", "index-damage"])
     always = bool(eng.choice(2))
     eng.input("always_update_last_hit", always)
     # the default-folder branch is exercised together with the fresh-module case (it does not interact with the rest)
@@ -455,12 +472,30 @@ class Text(Ext):
             def enc(eng, encoding="utf-8", errors="strict"):
                 return ("bytes of the text", encoding.lower().replace("_", "-"), errors)
             return stub(enc)
-        raise Unsupported("the cache key computation uses txt.%s: the key may no longer be a function of the exact text" % name)
+        # any other string operation yields text DERIVED from the model text (lines, a replacement, a stripped copy ...): hashing that is
+        # not hashing the exact text, and the obligation on the digest says so
+        return stub(lambda eng, *a, _n=name, **k: VList([Derived(_n)]) if _n in ("splitlines", "split", "rsplit", "partition") else Derived(_n))
+
+
+class Derived(Ext):
+    """a string computed from the model text by some operation other than encoding it"""
+    type_names = ("str",)
+
+    def __init__(self, how):
+        self.how = how
+
+    def sym_getattr(self, eng, name):
+        if name == "encode":
+            return stub(lambda eng, *a, **k: ("bytes of text.%s(...)" % self.how,))
+        return stub(lambda eng, *a, _n=name, **k: Derived(self.how + "." + _n))
+
+    def sym_binop(self, eng, op, other, reflected):
+        return Derived(self.how + " " + op)
 
 
 class Hasher(Ext):
-    def __init__(self, algo):
-        self.algo, self.updates = algo, []
+    def __init__(self, algo, initial=()):
+        self.algo, self.updates = algo, list(initial)       # sha256(data) is sha256() followed by update(data)
 
     def sym_getattr(self, eng, name):
         if name == "update":
@@ -476,7 +511,7 @@ def h_key(eng):
     w = World(eng)
     install(eng, w, "1.2.3+4.gabcdef")
     del eng.call_contracts["_calculate_txt_hash"]
-    eng.ext_modules["hashlib"] = ModuleStub("hashlib", {"sha256": stub(lambda eng, *a: Hasher("sha256") if not a else eng.unsupported("sha256(data)"))})
+    eng.ext_modules["hashlib"] = ModuleStub("hashlib", {"sha256": stub(lambda eng, *a: Hasher("sha256", a))})
     f = eng.find_function(PARSER, "_calculate_txt_hash")
     r = eng.call(f, [Text()], {})
     eng.cover("key")
@@ -496,6 +531,7 @@ TRUSTED = ["SQLite and the sqlite3 module, by a table of contracts keyed by the 
            "SHA-256 is injective on texts (a row found under sha256(txt) belongs to txt); _parse is a function of the text",
            "os.remove, Path.mkdir succeed on the cache folder (permissions, disk space and concurrent writers are outside: C02)"]
 ASSUMPTIONS = [
+    "damage that only a full PRAGMA integrity_check finds (index content not matching the table; PRAGMA quick_check passes it) makes a primary-key lookup return the row of another key; it is part of the arbitrary pre-state only for a database this process has not checked yet",
     "cache invariant J on every pre-state (stated in the module docstring); its preservation is the obligation parse.only_the_fresh_tree_is_written_under_its_own_key",
     "each call's pre-state is arbitrary (file absent / garbage / database; each table missing, correct, wrong but compatible, wrong and incompatible; the row none / valid / damaged in nine ways / pickled None; "
     "parse.initialized_dbs absent, without or with this path) -- this is what discharges the history quantifier; faults DURING a call (another process, disk full) are C02's subject, not modelled",
